@@ -166,7 +166,7 @@ static void float_exec(const uint8_t* d, size_t n) {
 const struct vh_driver drv_float = {"float", float_run, float_exec, "float decode/encode exactness (C15)"};
 
 /* ------------------------------------------------------------------- C16 */
-static uint64_t g_valid, g_invalid, g_entry[3], g_reattach, g_copy_route, g_cstring_route;
+static uint64_t g_valid, g_invalid, g_entry[3], g_reattach, g_copy_route, g_cstring_route, g_chunk_route;
 
 /* descriptor: entry mask byte, then the text bytes */
 static void utf8_case(const uint8_t* s, size_t n, int entries) {
@@ -178,15 +178,41 @@ static void utf8_case(const uint8_t* s, size_t n, int entries) {
   size_t want = valid ? cnt : 0;
   if (valid) g_valid++; else g_invalid++;
   uint8_t* ex = vh_exact(s, n);
-  if (entries == 15) entries = 63; /* the full set of routes includes the copy and the NUL-terminated builder */
-  else if (!(entries & 14)) entries |= 32; /* the cheap one-route cases also go through the NUL-terminated builder */
-  for (int e = 0; e < 6; e++) {
+  if (entries == 15) entries = 127; /* the full set of routes includes the copy, the NUL-terminated builder and the chunk */
+  else if (!(entries & 14)) entries |= 32 | 64; /* the cheap one-route cases also go through the NUL-terminated builder and the chunk route */
+  for (int e = 0; e < 7; e++) {
     if (!(entries & (1 << e))) continue;
     cbor_item_t* it = NULL;
     const char* how = e == 0 ? "cbor_build_stringn" : e == 1 ? "cbor_string_set_handle" : e == 2 ? "cbor_load" : e == 3 ? "cbor_string_set_handle on an item that held valid text before (same block, edited in place)"
                       : e == 4 ? "cbor_copy of an item whose bytes were edited in place through its handle (the copy is a new text string holding these bytes)"
-                      : "cbor_build_string (NUL-terminated)";
-    if (e == 5) {
+                      : e == 5 ? "cbor_build_string (NUL-terminated)"
+                      : "cbor_load as a chunk of an indefinite text string (after another chunk)";
+    cbor_item_t* chunk_parent = NULL;
+    if (e == 6) {
+      /* a chunk is a definite text string of its own: its count is the strict count of ITS bytes, whatever the chunk
+       * before it looks like (valid text, a truncated sequence, empty) */
+      static const uint8_t prevs[4][3] = {{0x61, 0, 0}, {0xc3, 0, 0}, {0xe2, 0x82, 0}, {0, 0, 0}};
+      static const size_t prevn[4] = {1, 1, 2, 0};
+      unsigned pv = (unsigned)(vh_hash(s, n) >> 13) & 3;
+      struct vh_buf in = {0};
+      vb_u8(&in, 0x7f);
+      vb_u8(&in, (uint8_t)(0x60 + prevn[pv])); vb_put(&in, prevs[pv], prevn[pv]);
+      if (n < 24) vb_u8(&in, (uint8_t)(0x60 + n));
+      else if (n < 256) { vb_u8(&in, 0x78); vb_u8(&in, (uint8_t)n); }
+      else if (n < 65536) { vb_u8(&in, 0x79); vb_be(&in, n, 2); }
+      else { vb_u8(&in, 0x7a); vb_be(&in, n, 4); }
+      vb_put(&in, s, n);
+      vb_u8(&in, 0xff);
+      uint8_t* exin = vh_exact(in.p, in.n);
+      struct cbor_load_result r;
+      chunk_parent = cbor_load(exin, in.n, &r);
+      if (!chunk_parent) vh_violation("text-rejected-for-content", "cbor_load rejected a chunked text string because of a chunk's content (%s), code %d", vh_hex(s, n, 24), (int)r.error.code);
+      else if (!cbor_isa_string(chunk_parent) || !cbor_string_is_indefinite(chunk_parent) || cbor_string_chunk_count(chunk_parent) != 2) vh_violation("not-a-text-string", "a chunked text string of two chunks did not decode as one");
+      else it = cbor_incref(cbor_string_chunks_handle(chunk_parent)[1]);
+      free(exin);
+      vb_free(&in);
+      g_chunk_route++;
+    } else if (e == 5) {
       /* the strlen-based builder: every sequence without an embedded NUL is a C string */
       if (n && memchr(s, 0, n)) continue;
       char* z = malloc(n + 1);
@@ -244,7 +270,7 @@ static void utf8_case(const uint8_t* s, size_t n, int entries) {
       free(exin);
       vb_free(&in);
     }
-    if (!it) continue;
+    if (!it) { if (chunk_parent) cbor_decref(&chunk_parent); continue; }
     if (e < 3) g_entry[e]++; else if (e == 3) g_reattach++;
     if (!cbor_isa_string(it) || !cbor_string_is_definite(it)) vh_violation("not-a-text-string", "%s did not produce a definite text string", how);
     else {
@@ -254,6 +280,7 @@ static void utf8_case(const uint8_t* s, size_t n, int entries) {
       else if (n && memcmp(cbor_string_handle(it), s, n)) vh_violation("content-altered", "%s altered the bytes of the text", how);
     }
     cbor_decref(&it);
+    if (chunk_parent) cbor_decref(&chunk_parent);
   }
   free(ex);
   if (ta_live_count()) { vh_violation("leak", "%zu block(s) left", ta_live_count()); ta_forget_all(); }
@@ -403,6 +430,7 @@ static void utf8_run(void) {
   vh_count_dyn("entry.set_handle_again_on_same_item", g_reattach);
   vh_count_dyn("entry.copy_of_item_edited_in_place", g_copy_route);
   vh_count_dyn("entry.build_string_nul_terminated", g_cstring_route);
+  vh_count_dyn("entry.chunk_of_an_indefinite_string", g_chunk_route);
   vh_set_rule("each case is a byte sequence attached as a definite text string through build_stringn / set_handle / cbor_load / a second set_handle on an item that held valid text; the reported code point count is compared with an independent RFC 3629 validator (count if valid, else 0), and length and bytes must be unchanged; non-trivial = non-empty sequence; distinct by construction in the exhaustive sweep (hashed)");
 }
 static void utf8_exec(const uint8_t* d, size_t n) {
